@@ -88,6 +88,8 @@ func classify(c *ast.CallExpr, recv string) string {
 		return "bufWrite"
 	case recv + ".wr.Flush":
 		return "bufFlush"
+	case recv + ".wr.Reset":
+		return "bufReset"
 	}
 	return ""
 }
@@ -558,6 +560,25 @@ func transcribeConn(f *fn) []string {
 	return out
 }
 
+// queueGoStmts: `go` statements in util/queue/RequestQueue.go.  The model's queue has exactly the consumers
+// that call it; a queue that starts goroutines of its own (a helper that waits in Get, say) is another consumer.
+func queueGoStmts(repo string) int {
+	fset := token.NewFileSet()
+	f, err := parser.ParseFile(fset, filepath.Join(repo, "util", "queue", "RequestQueue.go"), nil, 0)
+	if err != nil {
+		fmt.Fprintln(os.Stderr, "xlate/c06:", err)
+		os.Exit(1)
+	}
+	n := 0
+	ast.Inspect(f, func(m ast.Node) bool {
+		if _, ok := m.(*ast.GoStmt); ok {
+			n++
+		}
+		return true
+	})
+	return n
+}
+
 func leanList(xs []string) string { return "[" + strings.Join(xs, ", ") + "]" }
 
 // closeLocked: every statement that calls Close() is directly preceded (possibly with Connect-free
@@ -844,6 +865,7 @@ func main() {
 	fmt.Fprintf(&b, "    flush := %s\n", leanCalls(callSeq(fl)))
 	fmt.Fprintf(&b, "    queueConsumers := %s\n", leanStrs(consumers))
 	fmt.Fprintf(&b, "    goroutines := %s\n", leanStrs(goroutines))
+	fmt.Fprintf(&b, "    queueGoStmts := %d\n", queueGoStmts(*repo))
 	fmt.Fprintf(&b, "    licenseOverrideWhenNonEmpty := %s\n", leanBool(lic))
 	fmt.Fprintf(&b, "    headerSrc := %s\n", num(src))
 	fmt.Fprintf(&b, "    headerVer := %s }\n", num(ver))
